@@ -98,15 +98,22 @@ CosQ(q) == CASE q % 4 = 0 -> 1 [] q % 4 = 2 -> -1 [] OTHER -> 0
 SinQ(q) == CASE q % 4 = 1 -> 1 [] q % 4 = 3 -> -1 [] OTHER -> 0
 ArcScn == {[cx |-> cx, cy |-> cy, rx |-> rx, ry |-> ry, q0 |-> q0, dq |-> dq, sweep |-> sw, rel |-> rel, kind |-> "ellipse"] :
               cx \in {0, 3}, cy \in {0, -3}, rx \in {3, 6}, ry \in {3, 6}, q0 \in 0..3, dq \in 1..3, sw \in BOOLEAN, rel \in BOOLEAN}
+          \cup \* one arc command with two argument groups: two consecutive quarter arcs (dq = 2 in total)
+          {[cx |-> 0, cy |-> 0, rx |-> r, ry |-> r2, q0 |-> q0, dq |-> 2, sweep |-> sw, rel |-> rel, kind |-> "two-groups"] :
+              r \in {3, 6}, r2 \in {3, 6}, q0 \in 0..3, sw \in BOOLEAN, rel \in BOOLEAN}
           \cup \* degenerate arcs: a zero radius is a straight line, identical end points draw nothing,
                \* radii too small are scaled up until the end points fit (here: a half circle on the segment)
           {[cx |-> 0, cy |-> 0, rx |-> 0, ry |-> 3, q0 |-> 0, dq |-> 2, sweep |-> TRUE, rel |-> rel, kind |-> "zero-radius"] : rel \in BOOLEAN}
           \cup {[cx |-> 0, cy |-> 0, rx |-> 3, ry |-> 3, q0 |-> 0, dq |-> 0, sweep |-> TRUE, rel |-> rel, kind |-> "same-point"] : rel \in BOOLEAN}
           \cup {[cx |-> 0, cy |-> 0, rx |-> 1, ry |-> 1, q0 |-> 0, dq |-> 2, sweep |-> sw, rel |-> rel, kind |-> "too-small"] : sw \in BOOLEAN, rel \in BOOLEAN}
-ArcStart(a) == LET r == IF a.kind = "too-small" THEN 3 ELSE a.rx  s == IF a.kind = "too-small" THEN 3 ELSE IF a.kind = "zero-radius" THEN 3 ELSE a.ry IN
+          \* radii 2 x 1 for a chord of length 12 on the x axis: both are scaled by 3 (F.6.6), i.e. the ellipse 6 x 3 around the origin
+          \cup {[cx |-> 0, cy |-> 0, rx |-> 2, ry |-> 1, q0 |-> q0, dq |-> 2, sweep |-> sw, rel |-> rel, kind |-> "too-small-ellipse"] :
+                   q0 \in {0, 2}, sw \in BOOLEAN, rel \in BOOLEAN}
+UsedR(a) == CASE a.kind = "too-small" -> <<3, 3>> [] a.kind = "too-small-ellipse" -> <<6, 3>> [] OTHER -> <<a.rx, a.ry>>
+ArcStart(a) == LET r == UsedR(a)[1]  s == IF a.kind = "zero-radius" THEN 3 ELSE UsedR(a)[2] IN
                IF a.kind = "zero-radius" THEN Pt(3, 0) ELSE Pt(a.cx + r * CosQ(a.q0), a.cy + s * SinQ(a.q0))
 ArcEndQ(a) == IF a.sweep THEN a.q0 + a.dq ELSE a.q0 + 4 - a.dq
-ArcEnd(a) == LET r == IF a.kind = "too-small" THEN 3 ELSE a.rx  s == IF a.kind = "too-small" THEN 3 ELSE a.ry IN
+ArcEnd(a) == LET r == UsedR(a)[1]  s == UsedR(a)[2] IN
              IF a.kind = "zero-radius" THEN Pt(-3, 0) ELSE Pt(a.cx + r * CosQ(ArcEndQ(a)), a.cy + s * SinQ(ArcEndQ(a)))
 
 ---------------------------------------------------------------------------
@@ -200,7 +207,7 @@ StartsWithMove == (Family = "path" /\ ops # <<>>) => ops[1].op = "M"
 
 Emit == phase = "done" =>
   PrintT(ToJson(CASE Family = "path" -> [family |-> "path", cmds |-> cmds, ops |-> ops]
-                  [] Family = "arc" -> [family |-> "arc", arc |-> cmds[1], from |-> ArcStart(cmds[1]), to |-> ArcEnd(cmds[1])]
+                  [] Family = "arc" -> [family |-> "arc", arc |-> cmds[1], from |-> ArcStart(cmds[1]), to |-> ArcEnd(cmds[1]), used |-> UsedR(cmds[1])]
                   [] Family = "viewport" -> [family |-> "viewport", vp |-> cmds[1], want |-> VpTransform(cmds[1])]
                   [] Family = "shape" -> [family |-> "shape", shape |-> cmds[1], outline |-> ShapeOutline(cmds[1])]))
 =============================================================================
